@@ -151,9 +151,11 @@ def one_project(rep, rng, idx, odd_names):
         if mk != nk:
             only_m = list((mk - nk).elements())[:3]
             only_n = list((nk - mk).elements())[:3]
+            diff_recs = list((mk - nk).elements()) + list((nk - mk).elements())
+            semi = all(semicolon_class('make', [a for a in k[0]]) for k in diff_recs if k and k[0] != 'FAILED')
             bad += rep.fail('Make and Ninja start different processes: only make %r ; only ninja %r' % (only_m, only_n),
                             {'script': p.script(), 'conf_args': conf_args, 'conf_env': conf_env, 'only_make': only_m, 'only_ninja': only_n,
-                             'files': sorted(p.files)})
+                             'files': sorted(p.files)}, classes=('target-flag-semicolon',) if semi and diff_recs else ())
         # compile_commands.json (written by both configures; compare with what make really ran)
         for bdir, subs in ((bm, subs_m), (bn, subs_n)):
             db = project.compdb(bdir)
@@ -334,6 +336,14 @@ def goal_independence(rep, rng, idx):
     return 0
 
 
+def semicolon_class(backend, own_options):
+    """open finding target-flag-semicolon: GNU Make cuts a target-specific variable line at the first unquoted ';' (the
+    line is scanned as a rule first): per-target words with a ';' in front of a '#' or behind a backslash arrive changed"""
+    text = ' '.join(own_options)
+    i = text.find(';')
+    return ('target-flag-semicolon',) if backend == 'make' and i >= 0 and ('#' in text[i:] or '\\' in text) else ()
+
+
 def contains_sublist(hay, needle):
     """needle occurs in hay as an order-preserving subsequence (semantic flags such as -fPIC may sit in between)"""
     it = iter(hay)
@@ -433,12 +443,12 @@ def declared_vs_delivered(rep, rng, idx, backend, odd_names=False):
                     continue        # not part of the default target set that make built
                 if hit and not contains_sublist(hit[0], want):
                     bad += rep.fail('%s backend: compile options %r of %s are delivered as %r' % (backend, want, st['source'], hit[0]),
-                                    {'script': p.script(), 'declared': want, 'delivered': hit[0]})
+                                    {'script': p.script(), 'declared': want, 'delivered': hit[0]}, classes=semicolon_class(backend, st['options']))
             elif st['kind'] == 'link' and st.get('options'):
                 hit = [a for a in argvs if a and '-o' in a and a[-1].endswith(st['name'])]
                 rep.case('sys:%s:ld:%s' % (backend, st['name']), True)
                 if hit and not contains_sublist(hit[0], p.global_link + st['options']):
                     bad += rep.fail('%s backend: link options %r of %s are delivered as %r' % (backend, p.global_link + st['options'], st['name'], hit[0]),
-                                    {'script': p.script(), 'delivered': hit[0]})
+                                    {'script': p.script(), 'delivered': hit[0]}, classes=semicolon_class(backend, st['options']))
     rep.traces += 1
     return bad
